@@ -6,8 +6,10 @@ package referenceclient
 // events; Trace_RefClient explains each log with the client's steps silent.
 
 import (
+	"bytes"
 	"context"
 	"encoding/json"
+	"errors"
 	"fmt"
 	"io"
 	"net"
@@ -56,6 +58,7 @@ type rcGate struct {
 	gates   map[int]chan struct{}
 	arrived map[int]bool
 	cond    *sync.Cond
+	open    bool // answer at once (batch driver)
 }
 
 func (g *rcGate) gate(i int) chan struct{} {
@@ -71,6 +74,9 @@ func (g *rcGate) gate(i int) chan struct{} {
 
 func (g *rcGate) Unary(ctx context.Context, req *connect.Request[conformancev1.UnaryRequest]) (*connect.Response[conformancev1.UnaryResponse], error) {
 	i, _ := strconv.Atoi(req.Header().Get("x-verif-index"))
+	if g.open {
+		return connect.NewResponse(&conformancev1.UnaryResponse{Payload: &conformancev1.ConformancePayload{Data: []byte("ok")}}), nil
+	}
 	ch := g.gate(i)
 	g.log.put(rcEvent{E: "Arrive", I: rcI(i)})
 	g.mu.Lock()
@@ -329,6 +335,13 @@ func rcRun(p, n int, sched [][]any) rcResult {
 
 func rcStr(s string) *string { return &s }
 
+var (
+	rcBatchVersion  = conformancev1.HTTPVersion_HTTP_VERSION_1
+	rcBatchProtocol = conformancev1.Protocol_PROTOCOL_CONNECT
+)
+
+func rcBatchServer(h http.Handler) *httptest.Server { return httptest.NewServer(h) }
+
 func TestVerifRefClient(t *testing.T) {
 	lines, err := verifutil.ReadLines(verifutil.Env("VERIF_SCN", "scn.ndjson"))
 	if err != nil {
@@ -386,3 +399,149 @@ type rcDiscard struct{}
 
 func (rcDiscard) Write(p []byte) (int, error) { return len(p), nil }
 func (rcDiscard) Close() error                { return nil }
+
+// TestVerifRefClientBatch: the requests arrive as a stream whose bytes are split across reads in the ways the
+// framing property quantifies over - also several messages in one read - in the binary and in the JSON variant:
+// Run must read back exactly the sequence that was written (every request answered once) and end cleanly.
+func TestVerifRefClientBatch(t *testing.T) {
+	out, err := verifutil.NewOut(verifutil.Env("VERIF_OUT", "batch.ndjson"))
+	if err != nil {
+		t.Fatal(err)
+	}
+	defer out.Close()
+	log := &rcLog{}
+	g := &rcGate{log: log, gates: map[int]chan struct{}{}, arrived: map[int]bool{}, open: true}
+	g.cond = sync.NewCond(&g.mu)
+	mux := http.NewServeMux()
+	mux.Handle(conformancev1connect.NewConformanceServiceHandler(g))
+	srv := rcBatchServer(mux)
+	defer srv.Close()
+	host, portStr, _ := net.SplitHostPort(srv.Listener.Addr().String())
+	port, _ := strconv.Atoi(portStr)
+	const n = 6
+	n_ := 0
+	for _, useJSON := range []bool{false, true} {
+		codec := internal.NewCodec(useJSON)
+		var stream bytes.Buffer
+		enc := codec.NewEncoder(&stream)
+		var ends []int
+		for i := 1; i <= n; i++ {
+			if err := enc.Encode(rcBatchReq(i, host, port)); err != nil {
+				t.Fatal(err)
+			}
+			ends = append(ends, stream.Len())
+		}
+		all := stream.Bytes()
+		splits := map[string][]int{
+			"one read spanning all messages": {len(all)},
+			"reads spanning two messages":    {ends[1], ends[3] - ends[1], ends[5] - ends[3]},
+			"one message per read":           {ends[0], ends[1] - ends[0], ends[2] - ends[1], ends[3] - ends[2], ends[4] - ends[3], ends[5] - ends[4]},
+			"reads cut inside messages":      {ends[0] - 3, 7, ends[2] - ends[0] - 4, len(all) - ends[2]},
+			"one byte per read":              nil,
+		}
+		for name, sizes := range splits {
+			n_++
+			in := &rcChunkReader{data: all, sizes: sizes}
+			var stdout bytes.Buffer
+			args := []string{"client", "-p", "3"}
+			if useJSON {
+				args = append(args, "-json")
+			}
+			done := make(chan error, 1)
+			go func() { done <- Run(context.Background(), args, in, rcNopWriteCloser{&stdout}, rcDiscard{}) }()
+			var runErr error
+			hang := false
+			select {
+			case runErr = <-done:
+			case <-time.After(60 * time.Second):
+				hang = true
+			}
+			got := map[string]int{}
+			problems := []string{}
+			if hang {
+				problems = append(problems, "Run did not return within 60 s")
+			} else {
+				if runErr != nil {
+					problems = append(problems, "Run returned an error although the input was a complete sequence: "+runErr.Error())
+				}
+				dec := codec.NewDecoder(&stdout)
+				for {
+					var resp conformancev1.ClientCompatResponse
+					if err := dec.DecodeNext(&resp); err != nil {
+						if !errors.Is(err, io.EOF) {
+							problems = append(problems, "stdout is not a sequence of responses: "+err.Error())
+						}
+						break
+					}
+					if resp.GetError() != nil {
+						problems = append(problems, resp.TestName+": "+resp.GetError().GetMessage())
+					}
+					got[resp.TestName]++
+				}
+				for i := 1; i <= n; i++ {
+					if got[fmt.Sprintf("t%d", i)] != 1 {
+						problems = append(problems, fmt.Sprintf("request t%d answered %d times", i, got[fmt.Sprintf("t%d", i)]))
+					}
+				}
+				if len(got) > n {
+					problems = append(problems, fmt.Sprintf("%d distinct names answered, %d requested", len(got), n))
+				}
+			}
+			if len(problems) > 0 {
+				out.Put(map[string]any{"kind": "batch", "json": useJSON, "split": name, "problems": problems})
+			}
+		}
+	}
+	out.Put(map[string]any{"summary": true, "runs": n_})
+}
+
+type rcChunkReader struct {
+	data  []byte
+	sizes []int // nil: one byte per read
+	i     int
+}
+
+func (r *rcChunkReader) Read(p []byte) (int, error) {
+	if len(r.data) == 0 {
+		return 0, io.EOF
+	}
+	k := 1
+	if r.sizes != nil {
+		if r.i < len(r.sizes) {
+			k = r.sizes[r.i]
+		} else {
+			k = len(r.data)
+		}
+	}
+	if k > len(r.data) {
+		k = len(r.data)
+	}
+	if k > len(p) {
+		k = len(p) // the rest of this chunk comes with the next read
+		if r.sizes != nil && r.i < len(r.sizes) {
+			r.sizes[r.i] -= k
+			r.i--
+		}
+	}
+	copy(p, r.data[:k])
+	r.data = r.data[k:]
+	r.i++
+	return k, nil
+}
+func (r *rcChunkReader) Close() error { return nil }
+
+type rcNopWriteCloser struct{ io.Writer }
+
+func (rcNopWriteCloser) Close() error { return nil }
+
+func rcBatchReq(i int, host string, port int) *conformancev1.ClientCompatRequest {
+	msg, _ := anypb.New(&conformancev1.UnaryRequest{})
+	return &conformancev1.ClientCompatRequest{
+		TestName: fmt.Sprintf("t%d", i), HttpVersion: rcBatchVersion, Protocol: rcBatchProtocol,
+		Codec: conformancev1.Codec_CODEC_PROTO, Compression: conformancev1.Compression_COMPRESSION_IDENTITY, Host: host, Port: uint32(port),
+		Service: rcStr("connectrpc.conformance.v1.ConformanceService"), Method: rcStr("Unary"),
+		StreamType:      conformancev1.StreamType_STREAM_TYPE_UNARY,
+		RequestHeaders:  []*conformancev1.Header{{Name: "x-verif-index", Value: []string{strconv.Itoa(i)}}},
+		RequestMessages: []*anypb.Any{msg},
+	}
+}
